@@ -24,6 +24,9 @@ def targets():
     yield 'Derivative(sin, n=2, order=4)(0.7)', lambda: nd.Derivative(np.sin, n=2, order=4, full_output=True)(0.7)
     yield "Derivative(tanh, method='forward', order=3)(0.3)", lambda: nd.Derivative(np.tanh, method='forward', order=3, full_output=True)(0.3)
     yield "Derivative(exp, method='complex', n=3)(0.5)", lambda: nd.Derivative(np.exp, method='complex', n=3, full_output=True)(0.5)
+    yield "Derivative(exp, method='forward', order=2)(0.3)", lambda: nd.Derivative(np.exp, method='forward', order=2, full_output=True)(0.3)
+    yield "Derivative(cos, method='backward', order=2)(0.3)", lambda: nd.Derivative(np.cos, method='backward', order=2, full_output=True)(0.3)
+    yield 'Derivative(sin, order=4)(0.4)', lambda: nd.Derivative(np.sin, order=4, full_output=True)(0.4)
     yield 'Gradient(sum x^3)([1, 2])', lambda: nd.Gradient(lambda x: np.sum(x ** 3), full_output=True)([1.0, 2.0])
     yield 'Hessian(x0 exp(x1))([0.5, 0.25])', lambda: nd.Hessian(lambda x: x[0] * np.exp(x[1]), full_output=True)([0.5, 0.25])
     yield 'Limit(sin z / z)(0)', lambda: lim.Limit(lambda z: np.sin(z) / z, full_output=True)(0.0)
@@ -70,8 +73,21 @@ def same(a, b):
 
 def main():
     ref = [(name, mk()) for name, mk in targets()]
-    pollute()
     bad = []
+    for stage in ('other objects had been used', 'the rule cache FD_RULES had been cleared', 'other objects had refilled the cleared cache'):
+        if stage.startswith('the rule cache'):
+            fd.FD_RULES.clear()
+        else:
+            pollute()
+        for (name, r), (_n, mk) in zip(ref, targets()):
+            again = mk()
+            if not same(r, again):
+                bad.append('%s: value/error/final_step %r / %r / %r in a pristine interpreter, %r / %r / %r after %s'
+                           % (name, np.ravel(r[0])[:2].tolist(), np.ravel(r[1].error_estimate)[:2].tolist(), np.ravel(r[1].final_step)[:2].tolist(),
+                              np.ravel(again[0])[:2].tolist(), np.ravel(again[1].error_estimate)[:2].tolist(),
+                              np.ravel(again[1].final_step)[:2].tolist(), stage))
+    print(json.dumps({'bad': bad, 'targets': len(ref)}))
+    return
     for (name, r), (_n, mk) in zip(ref, targets()):
         again = mk()
         if not same(r, again):
